@@ -21,13 +21,13 @@ def register(PROPS):
                  'from {1, 40, 63, 64, 65, 100, 113} dates (kinds: RDATE lines only; one RDATE line of 113 plus EXDATE lines; RDATE and EXDATE '
                  'lines alternating; each further line repeats the last date of the one before), fed whole, byte-wise, in every regular chunk size '
                  'and with one cut within 8 bytes of every line end; here the dump holds EVERY occurrence (count and digest behind the fifth) and '
-                 'the uncut run must yield one task with as many occurrences as distinct dates are listed and not excepted.  Family alloc-fail (c10_allocfail): one VEVENT with 17..40 RRULE lines, or a DAILY rule and 17..40 EXRULE or X-GA-MRULE lines, or 1-3 RDATE and/or EXDATE lines of 60..111 DATE values each (60..333 per event; RDATE only, a DAILY rule and EXDATE lines, both alternating), or all of these together, followed by a small second VEVENT, parsed whole (push, pull until INSVERB_UNK, last_pull) with malloc / calloc / realloc / strdup / strndup interposed: the k-th allocation call of the parse answers NULL (once@k), or the k-th and every later one (from@k), for EVERY k up to the number of calls the undisturbed parse makes: no sanitizer report (ASan variant), no write behind the end of a block (plain variant, 8 KiB of patterned slack behind every block of the script), no crash, no hang, no more instructions than components, every delivered stream ends, and every delivered occurrence is one that the RRULE / RDATE lines of the document give (reference: the undisturbed parse of the document without its exception lines).',
+                 'the uncut run must yield one task with as many occurrences as distinct dates are listed and not excepted.  Family alloc-fail (c10_allocfail): one VEVENT with 17..40 RRULE lines, or a DAILY rule and 17..40 EXRULE or X-GA-MRULE lines, or 1-3 RDATE and/or EXDATE lines of 60..111 DATE values each (60..333 per event; RDATE only, a DAILY rule and EXDATE lines, both alternating), or all of these together, followed by a small second VEVENT, parsed whole (push, pull until INSVERB_UNK, last_pull) with malloc / calloc / realloc / strdup / strndup interposed: the k-th allocation call of the parse answers NULL (once@k), or the k-th and every later one (from@k), for EVERY k up to the number of calls the undisturbed parse makes: no sanitizer report (ASan variant), no write behind the end of a block (plain variant, 8 KiB of patterned slack behind every block of the script), no crash, no hang, no more instructions than components, every delivered stream ends, and every delivered occurrence is one that the RRULE / RDATE lines of the document give (reference: the undisturbed parse of the document without its exception lines).  Family attendees (c10_attendees): one VEVENT with n = 1..70 (80) ATTENDEE lines whose addresses are all 1, 15, 16 or 40 characters long or take these lengths in turn (every other line with mailto:), and two VEVENTs with (n1, n2) ATTENDEE lines, n1, n2 from {15, 16, 17, 31, 32, 33, 63, 64, 65}, fed in one piece, byte by byte and in two pieces cut at EVERY position: no sanitizer report (ASan variant), no write behind the end of a heap block (plain variant: 2 KiB of patterned slack behind every block obtained during the parse, ref/guardalloc.h), no crash, no hang, no more instructions than components; the uncut run yields every event with exactly the addresses written, in order, and every partition yields the same tasks (UID, command, recipients) as the uncut run.',
         'note': 'Arbitrary byte strings are not enumerable: robustness is claimed for the sample files, the crafted documents and the two token '
                 'languages and their cuts only (DESIGN C10 L).  Partitions with three or more cuts are covered only as regular chunk sizes.  '
                 'In the asan variant a document whose first failing partition aborts the worker is not continued behind that partition.',
         'rule': 'evaluation = one (document, partition, end-of-input discipline) judged under both stale fills; distinct by construction '
                 '(each index is another document or first cut, partitions inside a case never repeat); non-trivial = the uncut run of the '
-                'document yields at least one instruction (so there is something to get wrong).  alloc-fail: a case is one (document, once|from, k); distinct by construction; non-trivial = the k-th call was reached and refused',
+                'document yields at least one instruction (so there is something to get wrong).  alloc-fail: a case is one (document, once|from, k); distinct by construction; non-trivial = the k-th call was reached and refused.  attendees: a case is one (document, partition family whole|ones|c1), evaluations count parses; non-trivial = an event with at least 2 ATTENDEE lines',
         'bound': {
             'quick': 'documents: the 44 /repo/test/*.ics, 19 crafted documents, every string of <= 3 content tokens (16-token alphabet: UID, UID+CRLF, '
                      'DTSTART, DTSTART;TZID, RRULE, DURATION, folded SUMMARY, space- and tab-continuation line, escapes, empty value, 1023/1024/1100-byte '
@@ -37,11 +37,11 @@ def register(PROPS):
                      'for samples, crafted, <= 2 content tokens, <= 3 structure tokens; each x 2 end-of-input disciplines x 2 stale fills; '
                      'ASan+bounds: samples, crafted, <= 2 content tokens, <= 3 structure tokens without pairs; datelists: 3 kinds x (7^2 + 7^3) '
                      'size combinations = 1176 documents of up to 6.3 KB, partitions c0, near-line-end single cuts, all-ones, regular sizes, '
-                     'plain and ASan+bounds; alloc-fail: rule lines n in {17, 18, 20, 33, 40} x {RRULE, EXRULE, X-GA-MRULE}, date lines 1..3 with every tuple of sizes from {60, 65, 66, 100, 111} x {RDATE, EXDATE, both}, one mixed document = 481 documents x every allocation call k x {once, from} = 18440 cases, plain and ASan+bounds',
+                     'plain and ASan+bounds; alloc-fail: rule lines n in {17, 18, 20, 33, 40} x {RRULE, EXRULE, X-GA-MRULE}, date lines 1..3 with every tuple of sizes from {60, 65, 66, 100, 111} x {RDATE, EXDATE, both}, one mixed document = 481 documents x every allocation call k x {once, from} = 18440 cases, plain and ASan+bounds; attendees: 70 x 5 + 81 = 431 documents x {whole, byte-wise, every single cut} = 592494 parses, plain (guard allocator) and ASan+bounds',
             'thorough': 'quick + strings of 4 content tokens (documents over 400 bytes: single cuts within 8 bytes of a line end, fold or the 1 KiB limit), <= 3 inside '
                         'METHOD:CANCEL, structure tokens <= 5, each with 0/1 cuts, all-ones and regular sizes; every '
                         'pair of cuts for <= 3 content tokens and <= 4 structure tokens; ASan+bounds: samples and crafted with pairs, <= 3 content '
-                        'tokens, <= 4 structure tokens; alloc-fail: every n = 17..40, sizes from {60, 63, 64, 65, 66, 80, 100, 111} = 1825 documents, 68234 cases, plain and ASan+bounds',
+                        'tokens, <= 4 structure tokens; alloc-fail: every n = 17..40, sizes from {60, 63, 64, 65, 66, 80, 100, 111} = 1825 documents, 68234 cases, plain and ASan+bounds; attendees: n = 1..80 (481 documents, 708829 parses)',
         },
         'drivers': [
             D('c10_chunks', ['docs=samples', _ALL], label='samples', shards=4),
@@ -62,6 +62,8 @@ def register(PROPS):
             D('c10_chunks', ['docs=datelists', 'c1max=0', _ALL], label='datelists-asan', variant='asan'),
             D('c10_allocfail', ['docs=menu'], ['docs=full'], label='alloc-fail'),
             D('c10_allocfail', ['docs=menu'], ['docs=full'], label='alloc-fail-asan', variant='asan'),
+            D('c10_attendees', ['maxn=70'], ['maxn=80'], label='attendees'),
+            D('c10_attendees', ['maxn=70'], ['maxn=80'], label='attendees-asan', variant='asan'),
         ],
         'assumptions': [
             'the caller follows the discipline every caller in /repo/src follows: one buffer reused for every chunk, after each push pull until '
@@ -73,6 +75,7 @@ def register(PROPS):
             'a consumer frees every task it is handed (free_echs_task), as echse merge, echsx and echsq do',
             'stale bytes are modelled as what earlier chunks of the same stream left plus one of two fill bytes (blank and Z) behind them',
             'alloc-fail: an allocation call that answers NULL is read as part of "no byte sequence whatsoever makes the parser crash, overrun a buffer or loop": the verdict must not depend on the allocator; what an allocation failure may cost (items of a list, attributes, the task) is not judged, only that nothing is written outside a block, nothing crashes or loops and no occurrence comes out that the document does not list; deviation bound: one refused call, or all calls from one point on, per parse; draining and releasing the delivered tasks happens with a working allocator; in the plain variant blocks the library keeps beyond a script are looked at once at its end; after 3 deaths of the worker under one crash signature in a shard the remaining cases of that signature are left out and counted',
+            'attendees: the feeding discipline is the echse one (pull until INSVERB_UNK after every push, at the end a pull and last_pull); the observation of a task is its UID, command and recipient list (the other fields are c10_chunks\' matter); that the uncut run holds exactly the written addresses (README: ATTENDEE = recipients, a leading mailto: is not part of the address) is demanded so that agreement between partitions is not met by runs that lose the same recipients; in the plain variant blocks the library keeps beyond a parse are looked at once at its end',
             'datelists: lines of up to 111 dates are written RDATE;VALUE=DATE:..., lines of 113 dates as RDATE:yyyymmdd,... (1022 bytes; with the '
             'parameter they would exceed the 1 KiB line limit), which the parser reads as dates as well; DTSTART is the first listed date, so '
             'whether DTSTART itself belongs to the set does not arise; a date listed twice counts once (recurrence SET, as in C02)',
